@@ -6,6 +6,7 @@ package main
 import (
 	"go/constant"
 	"go/token"
+	"go/types"
 	"sort"
 	"strconv"
 	"strings"
@@ -504,6 +505,32 @@ func (p *Program) definitelyNonNil(v ssa.Value, depth int) bool {
 		return true
 	case *ssa.ChangeInterface:
 		return p.definitelyNonNil(x.X, depth+1)
+	case *ssa.UnOp:
+		// a sentinel error variable: io.EOF, io.ErrUnexpectedEOF, ... and the module's own
+		// sentinels, assigned once by the package initialiser
+		g, ok := x.X.(*ssa.Global)
+		if !ok || x.Op != token.MUL || g.Pkg == nil {
+			return false
+		}
+		if !isErrorType(g.Type().(*types.Pointer).Elem()) {
+			return false
+		}
+		pp := g.Pkg.Pkg.Path()
+		if pp != modPath && !strings.HasPrefix(pp, modPath+"/") {
+			return g.Name() == "EOF" || strings.HasPrefix(g.Name(), "Err")
+		}
+		n := 0
+		for _, u := range p.globalUses(g) {
+			st, isStore := u.(*ssa.Store)
+			if !isStore {
+				continue // loads
+			}
+			if st.Addr != ssa.Value(g) || st.Parent().Name() != "init" || !p.definitelyNonNil(st.Val, depth+1) {
+				return false
+			}
+			n++
+		}
+		return n == 1
 	case *ssa.Phi:
 		for _, e := range x.Edges {
 			if !p.definitelyNonNil(e, depth+1) {
